@@ -7407,3 +7407,54 @@ def tn3(m, run, rule='TN3.tangents-and-normals-from-the-derivative-tables'):
             raise AnalysisError('%s: interpreter met an unsupported construct: %s' % (key, ex))
         run.ob(rule, key, why is None, 'the vectors are the first-order cells of the derivative table, normalised exactly when asked; the list variant maps the single one' if why is None else why,
                'geomdl/_operations.py:%d in %s' % (fi.node.lineno, fi.key))
+
+
+# ====================================================================================== C20: ray intersection status on rational rays
+def rs2(m, run, rule='RS2.ray-intersection-status'):
+    """RS2: ray.intersect interpreted on rays of the real Ray class with small integer coordinates (direction cross products of integer
+    length, so that every quantity is exact), in space and in the plane: rays that meet are INTERSECT with parameters at which both rays
+    evaluate to the common point (also when they share their origin), parallel and coincident rays - same or different origins - are
+    COLINEAR, rays that neither meet nor are parallel are SKEW"""
+    from fractions import Fraction as F
+    fi = m.func('ray.intersect')
+    cases = [
+        ('meeting rays', ((0, 0, 0), (1, 0, 0)), ((2, -1, 0), (2, 1, 0)), 'INTERSECT', (2, 0, 0)),
+        ('rays with one origin and different directions', ((1, 1, 0), (2, 1, 0)), ((1, 1, 0), (1, 3, 0)), 'INTERSECT', (1, 1, 0)),
+        ('parallel rays', ((0, 0, 0), (1, 0, 0)), ((0, 1, 0), (1, 1, 0)), 'COLINEAR', None),
+        ('rays with one origin and the same direction', ((0, 0, 0), (1, 0, 0)), ((0, 0, 0), (3, 0, 0)), 'COLINEAR', None),
+        ('coincident rays with different origins', ((0, 0, 0), (1, 0, 0)), ((5, 0, 0), (7, 0, 0)), 'COLINEAR', None),
+        ('skew rays', ((0, 0, 0), (1, 0, 0)), ((0, 1, 1), (0, 1, 3)), 'SKEW', None),
+        ('meeting rays in the plane', ((0, 0), (1, 0)), ((2, -1), (2, 1)), 'INTERSECT', (2, 0)),
+        ('parallel rays in the plane', ((0, 0), (1, 0)), ((0, 1), (1, 1)), 'COLINEAR', None),
+    ]
+    bad = []
+    for what, r1, r2, want, meet in cases:
+        sk = SK(m, {})
+        sk.exact = True
+        sk.construct = True
+        why = None
+        try:
+            a = sk.apply(('class', ('ray', 'Ray')), [list(r1[0]), list(r1[1])], {}, None)
+            b = sk.apply(('class', ('ray', 'Ray')), [list(r2[0]), list(r2[1])], {}, None)
+            out = sk.call(fi, [a, b], {})
+            codes = {nm: sk.class_attr(('ray', 'RayIntersection'), nm) for nm in ('INTERSECT', 'COLINEAR', 'SKEW')}
+            if not isinstance(out, tuple) or len(out) != 3:
+                why = 'does not return (t1, t2, status)'
+            else:
+                got = next((nm for nm, v_ in codes.items() if v_ == out[2]), out[2])
+                if got != want:
+                    why = 'the status is %s, expected %s' % (got, want)
+                elif meet is not None:
+                    for ray_, t_, nm in ((r1, out[0], 'first'), (r2, out[1], 'second')):
+                        pt = [F(ray_[0][c]) + F(t_) * (F(ray_[1][c]) - F(ray_[0][c])) for c in range(len(meet))]
+                        if pt != [F(x) for x in meet]:
+                            why = 'the %s ray at its returned parameter %s is at %s, the rays meet at %s' % (nm, t_, [str(x) for x in pt], list(meet))
+                            break
+        except Violation as v:
+            why = '%s %s' % (v.msg, v.where())
+        except Unsupported as ex:
+            raise AnalysisError('%s: interpreter met an unsupported construct: %s' % (fi.key, ex))
+        if why:
+            bad.append((what, why))
+    run.ob(rule, '%s :: %d pairs of rays' % (fi.key, len(cases)), not bad, 'INTERSECT with the parameters of the common point, COLINEAR, SKEW as the rays are' if not bad else '%s: %s   [%d of %d]' % (bad[0][0], bad[0][1], len(bad), len(cases)),
+           'geomdl/ray.py:%d in %s' % (fi.node.lineno, fi.key))
